@@ -239,7 +239,15 @@ def harness(env, case):
         # nothing observed earlier may have changed
         for (op0, chain0, snap0, di, _pos) in results[:-1]:
             if op0[0] == "build":
-                now = snap_design(designs[di])
+                try:
+                    now = snap_design(designs[di])
+                except symx.PathEnd:
+                    raise
+                except symx.Inconclusive:
+                    raise
+                except Exception as e:  # noqa -- e.g. labels no longer match the columns
+                    env.fail("an existing design is unchanged by later operations", dict(info, error=f"re-reading it raises {type(e).__name__}: {e}"[:200]))
+                    continue
                 same_snap(env, now, snap0, "an existing design is unchanged by later operations", info)
         for i, f in enumerate(frs):
             env.prove(_frame_same(snap_frame(f), frame_snaps[i]), "the caller's frames are untouched", info)
